@@ -85,7 +85,7 @@ func c19MakeFixture(root, name string, st state.ClusterState) (c19Fixture, error
 	if err != nil {
 		return c19Fixture{}, fmt.Errorf("fixture %s: Load: %w", name, err)
 	}
-	return c19Fixture{name: name, st: st, bytes: b, canon: c19Canon(got)}, nil
+	return c19Fixture{name: name, st: got, bytes: b, canon: c19Canon(got)}, nil // st = the loaded state (normalised, checksummed)
 }
 
 // ---------------------------------------------------------------- strace log parsing
